@@ -596,6 +596,24 @@ func (vc *VC) trCall(e *ECall, env *specEnv, c *Clause) sval {
 			vc.specFail(c, "unknown ghost state %q", id.Name)
 		}
 		return boolv(fmt.Sprintf("(= %s %s)", env.st.get(key), env.old.get(key)))
+	case "unmodified":
+		// unmodified(p): no field of the struct p points to has been written since the old state
+		argN(1)
+		x := vc.tr(e.Args[0], env, c)
+		if x.typ == nil {
+			vc.specFail(c, "unmodified needs a pointer to a struct")
+		}
+		stt := deref(x.typ)
+		sT, isStruct := structOf(stt)
+		if !isStruct {
+			vc.specFail(c, "unmodified needs a pointer to a struct, got %s", x.typ)
+		}
+		var conj []string
+		for i := 0; i < sT.NumFields(); i++ {
+			k := vc.fieldKey(stt, i)
+			conj = append(conj, fmt.Sprintf("(= (select %s %s) (select %s %s))", env.st.get(k), x.term, env.old.get(k), x.term))
+		}
+		return boolv(and(conj...))
 	case "iscopy":
 		argN(2)
 		x, y := vc.tr(e.Args[0], env, c), vc.tr(e.Args[1], env, c)
